@@ -55,11 +55,12 @@ theorem find_none_of_lookup {now : Nat} {s : Store} {k : Key} (h : FMap.lookup s
 
 /-! ## `StoreInv` -/
 
-/-- The record `RegisterConnection` writes for connection `c`. -/
-def infoOf (c : Conn) : Info := ⟨c, c.client, c.node, true⟩
+/-- The record `RegisterConnection` / `RefreshConnection` write for connection `c` with `ExpiresAt = u`. -/
+def infoOf (c : Conn) (u : Nat) : Info := ⟨c, c.client, c.node, true, u⟩
 
 structure StoreInv (opened : List Conn) (s : Store) : Prop where
-  conn : ∀ c e, FMap.lookup s (.conn c) = some e → e.val = .info (infoOf c) ∧ c ∈ opened ∧ 0 < c.client
+  conn : ∀ c e, FMap.lookup s (.conn c) = some e →
+    e.val = .info (infoOf c e.exp) ∧ c ∈ opened ∧ 0 < c.client ∧ 0 < e.exp
   client : ∀ x e, FMap.lookup s (.client x) = some e → ∃ c, e.val = .id c ∧ c.client = x
 
 theorem StoreInv.empty (o : List Conn) : StoreInv o (FMap.empty : Store) :=
@@ -82,8 +83,9 @@ theorem StoreInv.mono {o o' : List Conn} {s : Store} (h : StoreInv o s) (hsub : 
     StoreInv o' s :=
   ⟨fun c e hl => ⟨(h.conn c e hl).1, hsub c (h.conn c e hl).2.1, (h.conn c e hl).2.2⟩, h.client⟩
 
-theorem StoreInv.setConn {o : List Conn} {s : Store} (h : StoreInv o s) (now ttl : Nat) {c : Conn}
-    (hc : c ∈ o) (hx : 0 < c.client) : StoreInv o (set now ttl s (.conn c) (.info (infoOf c))) := by
+theorem StoreInv.setConn {o : List Conn} {s : Store} (h : StoreInv o s) (now : Nat) {ttl : Nat} (httl : 0 < ttl)
+    {c : Conn} (hc : c ∈ o) (hx : 0 < c.client) :
+    StoreInv o (set now ttl s (.conn c) (.info (infoOf c (now + ttl)))) := by
   constructor
   · intro c' e hl
     rw [lookup_set] at hl
@@ -91,7 +93,8 @@ theorem StoreInv.setConn {o : List Conn} {s : Store} (h : StoreInv o s) (now ttl
     · rename_i heq
       injection heq with heq; subst heq
       injection hl with hl; subst hl
-      exact ⟨rfl, hc, hx⟩
+      rw [expiry_pos httl]
+      exact ⟨rfl, hc, hx, by show 0 < now + ttl; omega⟩
     · exact h.conn c' e hl
   · intro x e hl
     rw [lookup_set] at hl
@@ -145,15 +148,27 @@ theorem decodable_repaired {P : Params} (hv : P.v = repaired) : decodable P = tr
 
 theorem gcs_cases {P : Params} (hv : P.v = repaired) {o : List Conn} {s : Store} (h : StoreInv o s)
     (now : Nat) (c : Conn) :
-    (getConnectionState P now s c = .ok (infoOf c) ∧ ∃ e, find now s (.conn c) = some e) ∨
+    (∃ e, find now s (.conn c) = some e ∧ getConnectionState P now s c = .ok (infoOf c e.exp)) ∨
     (getConnectionState P now s c = .notFound ∧ find now s (.conn c) = none) := by
   unfold getConnectionState
   cases hf : find now s (.conn c) with
   | none => right; simp
   | some e =>
     left
-    have hv' := (h.conn c e (find_some hf)).1
-    simp [hv', decodable_repaired hv]
+    obtain ⟨hv', _, _, hpos⟩ := h.conn c e (find_some hf)
+    have hlive : now ≤ e.exp := by
+      unfold find at hf
+      cases hl : FMap.lookup s (.conn c) with
+      | none => simp [hl] at hf
+      | some e' =>
+        simp only [hl, Option.filter] at hf
+        split at hf
+        · rename_i hlv
+          injection hf with hf; subst hf
+          simp only [live, Bool.or_eq_true, beq_iff_eq, decide_eq_true_eq] at hlv
+          omega
+        · cases hf
+    exact ⟨e, rfl, by simp [hv', decodable_repaired hv, infoOf, hlive]⟩
 
 theorem pointsTo_true {now : Nat} {s : Store} {x : Nat} {c : Conn}
     (h : clientIndexPointsTo now s x c = true) :
@@ -184,7 +199,7 @@ theorem unregisterIndex_cases {P : Params} (hv : P.v = repaired) {o : List Conn}
     (unregisterIndex P now s c = del s (.client c.client) ∧
       ∃ e, FMap.lookup s (.client c.client) = some e ∧ e.val = .id c) := by
   unfold unregisterIndex
-  rcases gcs_cases hv h now c with ⟨hg, _⟩ | ⟨hg, _⟩
+  rcases gcs_cases hv h now c with ⟨_, _, hg⟩ | ⟨hg, _⟩
   · rw [hg]
     simp only [infoOf, hv, repaired, Bool.true_and, if_true]
     by_cases hx : 0 < c.client
@@ -235,9 +250,9 @@ theorem lookup_unregister_client {P : Params} (hv : P.v = repaired) {o : List Co
       simp [this]
 
 /-- `RegisterConnection` for the record of `c` (a control connection of a known client). -/
-theorem register_eq (P : Params) (now : Nat) (s : Store) {c : Conn} (hx : 0 < c.client) :
-    registerConnection P c.node now s ⟨c, c.client, c.node, true⟩ =
-      set now P.ttl (set now P.ttl s (.conn c) (.info (infoOf c))) (.client c.client) (.id c) := by
+theorem register_eq (P : Params) (now : Nat) (s : Store) {c : Conn} (hx : 0 < c.client) (a : Nat) :
+    registerConnection P c.node now s ⟨c, c.client, c.node, true, a⟩ =
+      set now P.ttl (set now P.ttl s (.conn c) (.info (infoOf c (now + P.ttl)))) (.client c.client) (.id c) := by
   unfold registerConnection infoOf
   simp [hx]
 
@@ -245,15 +260,15 @@ theorem refresh_cases {P : Params} (hv : P.v = repaired) {o : List Conn} {s : St
     (h : StoreInv o s) (now : Nat) (c : Conn) :
     refreshConnection P now s c = s ∨
     ((∃ e, FMap.lookup s (.conn c) = some e) ∧ 0 < c.client ∧
-      ((refreshConnection P now s c = set now P.ttl s (.conn c) (.info (infoOf c)) ∧
+      ((refreshConnection P now s c = set now P.ttl s (.conn c) (.info (infoOf c (now + P.ttl))) ∧
           clientIndexPointsTo now s c.client c = false) ∨
        (refreshConnection P now s c =
-          set now P.ttl (set now P.ttl s (.conn c) (.info (infoOf c))) (.client c.client) (.id c) ∧
+          set now P.ttl (set now P.ttl s (.conn c) (.info (infoOf c (now + P.ttl)))) (.client c.client) (.id c) ∧
           clientIndexPointsTo now s c.client c = true))) := by
   unfold refreshConnection
-  rcases gcs_cases hv h now c with ⟨hg, e, hf⟩ | ⟨hg, _⟩
+  rcases gcs_cases hv h now c with ⟨e, hf, hg⟩ | ⟨hg, _⟩
   · right
-    have hx := (h.conn c e (find_some hf)).2.2
+    have hx := (h.conn c e (find_some hf)).2.2.1
     refine ⟨⟨e, find_some hf⟩, hx, ?_⟩
     rw [hg]
     by_cases hp : clientIndexPointsTo now s c.client c = true
@@ -261,12 +276,12 @@ theorem refresh_cases {P : Params} (hv : P.v = repaired) {o : List Conn} {s : St
     · left; simp [infoOf, hp]
   · left; rw [hg]
 
-theorem StoreInv.refresh {P : Params} (hv : P.v = repaired) {o : List Conn} {s : Store}
+theorem StoreInv.refresh {P : Params} (hv : P.v = repaired) (httl : 0 < P.ttl) {o : List Conn} {s : Store}
     (h : StoreInv o s) (now : Nat) (c : Conn) : StoreInv o (refreshConnection P now s c) := by
   rcases refresh_cases hv h now c with he | ⟨⟨e, hl⟩, hx, ⟨he, _⟩ | ⟨he, _⟩⟩ <;> rw [he]
   · exact h
-  · exact h.setConn now P.ttl (h.conn c e hl).2.1 hx
-  · exact (h.setConn now P.ttl (h.conn c e hl).2.1 hx).setClient now P.ttl c
+  · exact h.setConn now httl (h.conn c e hl).2.1 hx
+  · exact (h.setConn now httl (h.conn c e hl).2.1 hx).setClient now P.ttl c
 
 /-! ## `NodeOk` / `NodeInv`: registry facts -/
 
@@ -527,7 +542,7 @@ def LiveInv (latest : LMap) (opened : List Conn) (nodes : Nat → NodeSt) (s : S
   ∀ x c u, LMap.lookup latest x = some (c, u) →
     c.client = x ∧ 0 < x ∧ c ∈ opened ∧
     FMap.lookup (nodes c.node).byClient x = some c ∧
-    FMap.lookup s (.conn c) = some ⟨.info (infoOf c), u⟩ ∧
+    FMap.lookup s (.conn c) = some ⟨.info (infoOf c u), u⟩ ∧
     FMap.lookup s (.client x) = some ⟨.id c, u⟩
 
 theorem LiveInv.frame {latest : LMap} {o o' : List Conn} {nodes nodes' : Nat → NodeSt} {s : Store}
@@ -605,26 +620,26 @@ theorem Inv.tick {S : SpecSt} {M : St} (h : Inv S M) (dt : Nat) :
 
 theorem hsStore_eq (P : Params) (now : Nat) (s : Store) (n : NodeSt) {c : Conn} (hx : 0 < c.client) :
     ∃ s', hsStore P now s n c =
-        set now P.ttl (set now P.ttl s' (.conn c) (.info (infoOf c))) (.client c.client) (.id c) ∧
+        set now P.ttl (set now P.ttl s' (.conn c) (.info (infoOf c (now + P.ttl)))) (.client c.client) (.id c) ∧
       (s' = s ∨ ∃ o, FMap.lookup n.byClient c.client = some o ∧ o ≠ c ∧ s' = unregisterConnection P now s o) := by
   unfold hsStore
   cases hl : FMap.lookup n.byClient c.client with
-  | none => exact ⟨s, by simp [register_eq P now s hx], Or.inl rfl⟩
+  | none => exact ⟨s, by simp [register_eq P now s hx 0], Or.inl rfl⟩
   | some o =>
     by_cases hoc : o = c
-    · exact ⟨s, by simp [hoc, register_eq P now s hx], Or.inl rfl⟩
-    · exact ⟨unregisterConnection P now s o, by simp [hoc, register_eq P now _ hx], Or.inr ⟨o, rfl, hoc, rfl⟩⟩
+    · exact ⟨s, by simp [hoc, register_eq P now s hx 0], Or.inl rfl⟩
+    · exact ⟨unregisterConnection P now s o, by simp [hoc, register_eq P now _ hx 0], Or.inr ⟨o, rfl, hoc, rfl⟩⟩
 
-theorem StoreInv.hsStore {P : Params} (hv : P.v = repaired) {o : List Conn} {s : Store} (h : StoreInv o s)
+theorem StoreInv.hsStore {P : Params} (hv : P.v = repaired) (httl : 0 < P.ttl) {o : List Conn} {s : Store} (h : StoreInv o s)
     (now : Nat) (n : NodeSt) {c : Conn} (hc : c ∈ o) (hx : 0 < c.client) : StoreInv o (hsStore P now s n c) := by
   obtain ⟨s', he, hs'⟩ := hsStore_eq P now s n hx
   rw [he]
   rcases hs' with rfl | ⟨o', _, _, rfl⟩
-  · exact (h.setConn now P.ttl hc hx).setClient now P.ttl c
-  · exact ((h.unregister hv now o').setConn now P.ttl hc hx).setClient now P.ttl c
+  · exact (h.setConn now httl hc hx).setClient now P.ttl c
+  · exact ((h.unregister hv now o').setConn now httl hc hx).setClient now P.ttl c
 
 theorem hsStore_conn_self (P : Params) (now : Nat) (s : Store) (n : NodeSt) {c : Conn} (hx : 0 < c.client) :
-    FMap.lookup (hsStore P now s n c) (.conn c) = some ⟨.info (infoOf c), expiry now P.ttl⟩ := by
+    FMap.lookup (hsStore P now s n c) (.conn c) = some ⟨.info (infoOf c (now + P.ttl)), expiry now P.ttl⟩ := by
   obtain ⟨s', he, _⟩ := hsStore_eq P now s n hx
   rw [he, lookup_set, lookup_set]; simp
 
@@ -719,7 +734,7 @@ theorem Inv.handshake {P : Params} (hv : P.v = repaired) (httl : 0 < P.ttl) {S :
             by_cases hi : i = c.node
             · subst hi; simp only [upd_same, conns_hsNode, NodeSt.addAuth]; exact h.conns_opened _ d
             · simp only [upd_other _ _ hi]; exact h.conns_opened i d
-          · exact h.store.hsStore hv M.now _ hopen hx
+          · exact h.store.hsStore hv httl M.now _ hopen hx
           · intro y c2 u2 hl
             by_cases hy : c.client = y
             · subst hy
@@ -770,13 +785,13 @@ theorem Inv.handshakeTunnel {P : Params} {S : SpecSt} {M : St} (h : Inv S M) (c 
 
 theorem refresh_live {P : Params} (hv : P.v = repaired) {s : Store} {now u u' : Nat} {c : Conn}
     (hx : 0 < c.client)
-    (h1 : FMap.lookup s (.conn c) = some ⟨.info (infoOf c), u⟩) (hu : now ≤ u)
+    (h1 : FMap.lookup s (.conn c) = some ⟨.info (infoOf c u), u⟩) (hu : now ≤ u)
     (h2 : FMap.lookup s (.client c.client) = some ⟨.id c, u'⟩) (hu' : now ≤ u') :
     refreshConnection P now s c =
-      set now P.ttl (set now P.ttl s (.conn c) (.info (infoOf c))) (.client c.client) (.id c) := by
+      set now P.ttl (set now P.ttl s (.conn c) (.info (infoOf c (now + P.ttl)))) (.client c.client) (.id c) := by
   unfold refreshConnection getConnectionState
   rw [find_of_lookup h1 hu]
-  simp [decodable_repaired hv, infoOf, hx, pointsTo_of_lookup h2 hu']
+  simp [decodable_repaired hv, infoOf, hx, hu, pointsTo_of_lookup h2 hu']
 
 theorem refresh_conn_other {P : Params} (hv : P.v = repaired) {o : List Conn} {s : Store} (h : StoreInv o s)
     (now : Nat) {c c2 : Conn} (hne : c2 ≠ c) :
@@ -810,7 +825,7 @@ theorem Inv.heartbeat {P : Params} (hv : P.v = repaired) (httl : 0 < P.ttl) {S :
     -- every reference obligation of a connection other than `c` survives the refresh
     have hother : ∀ y c2 u2, LMap.lookup S.latest y = some (c2, u2) → c2 ≠ c →
         c2.client = y ∧ 0 < y ∧ c2 ∈ S.opened ∧ FMap.lookup (M.nodes c2.node).byClient y = some c2 ∧
-        FMap.lookup (refreshConnection P M.now M.store c) (.conn c2) = some ⟨.info (infoOf c2), u2⟩ ∧
+        FMap.lookup (refreshConnection P M.now M.store c) (.conn c2) = some ⟨.info (infoOf c2 u2), u2⟩ ∧
         FMap.lookup (refreshConnection P M.now M.store c) (.client y) = some ⟨.id c2, u2⟩ := by
       intro y c2 u2 hl hne
       obtain ⟨h1, h2, h3, h4, h5, h6⟩ := h.live y c2 u2 hl
@@ -832,7 +847,7 @@ theorem Inv.heartbeat {P : Params} (hv : P.v = repaired) (httl : 0 < P.ttl) {S :
     cases hl : LMap.lookup S.latest c.client with
     | none =>
       simp only
-      refine ⟨h.now_eq, h.nodeOk, h.conns_opened, h.store.refresh hv M.now c, ?_, h.down_eq⟩
+      refine ⟨h.now_eq, h.nodeOk, h.conns_opened, h.store.refresh hv httl M.now c, ?_, h.down_eq⟩
       intro y c2 u2 hl2
       refine hother y c2 u2 hl2 ?_
       intro e; subst e
@@ -848,7 +863,7 @@ theorem Inv.heartbeat {P : Params} (hv : P.v = repaired) (httl : 0 < P.ttl) {S :
         · simp only [hu, if_true]
           have hu' : M.now ≤ u0 := h.now_eq ▸ hu
           have hre := refresh_live hv h2 h5 hu' h6 hu'
-          refine ⟨h.now_eq, h.nodeOk, h.conns_opened, h.store.refresh hv M.now c0, ?_, h.down_eq⟩
+          refine ⟨h.now_eq, h.nodeOk, h.conns_opened, h.store.refresh hv httl M.now c0, ?_, h.down_eq⟩
           intro y c2 u2 hl2
           by_cases hy : c0.client = y
           · subst hy
@@ -864,7 +879,7 @@ theorem Inv.heartbeat {P : Params} (hv : P.v = repaired) (httl : 0 < P.ttl) {S :
             intro e; subst e
             exact hy (h.live y c2 u2 hl2).1
         · simp only [hu, if_false]
-          refine ⟨h.now_eq, h.nodeOk, h.conns_opened, h.store.refresh hv M.now c0, ?_, h.down_eq⟩
+          refine ⟨h.now_eq, h.nodeOk, h.conns_opened, h.store.refresh hv httl M.now c0, ?_, h.down_eq⟩
           intro y c2 u2 hl2
           by_cases hy : c0.client = y
           · subst hy; rw [LMap.lookup_erase_eq] at hl2; cases hl2
@@ -873,7 +888,7 @@ theorem Inv.heartbeat {P : Params} (hv : P.v = repaired) (httl : 0 < P.ttl) {S :
             intro e; subst e
             exact hy (h.live y c2 u2 hl2).1
       · simp only [hc0, if_false]
-        refine ⟨h.now_eq, h.nodeOk, h.conns_opened, h.store.refresh hv M.now c, ?_, h.down_eq⟩
+        refine ⟨h.now_eq, h.nodeOk, h.conns_opened, h.store.refresh hv httl M.now c, ?_, h.down_eq⟩
         intro y c2 u2 hl2
         refine hother y c2 u2 hl2 ?_
         intro e; subst e
@@ -1139,7 +1154,7 @@ theorem find_cases {P : Params} (hv : P.v = repaired) {S : SpecSt} {M : St} (h :
   | some e =>
     obtain ⟨c, hval, hcx⟩ := h.store.client x e (find_some hf)
     simp only [hval]
-    rcases gcs_cases hv h.store M.now c with ⟨hg, e', hf'⟩ | ⟨hg, _⟩
+    rcases gcs_cases hv h.store M.now c with ⟨e', hf', hg⟩ | ⟨hg, _⟩
     · right
       refine ⟨c, ?_, hcx, (h.store.conn c e' (find_some hf')).2.1⟩
       rw [hg]; rfl
@@ -1156,7 +1171,7 @@ theorem find_live {P : Params} (hv : P.v = repaired) {S : SpecSt} {M : St} (h : 
   rw [find_of_lookup h6 hu']
   simp only
   rw [find_of_lookup h5 hu']
-  simp [decodable_repaired hv, infoOf]
+  simp [decodable_repaired hv, infoOf, hu']
 
 theorem lookOk_of_inv {P : Params} (hv : P.v = repaired) {S : SpecSt} {M : St} (h : Inv S M) (x : Nat) :
     lookOk S x (findClientNode P M.now M.store x) = true := by
